@@ -330,7 +330,7 @@ class ContextHelpers(Unit):
         "C19.ctxutil.copy": {"props": ["C19", "C16", "C06"], "text":
             "set_current_task / set_current_item return a context that shares no container with the given one (so rendering against it cannot touch stored state) and leave the given one unchanged"},
         "C16.ctx_.hides": {"props": ["C16"], "text":
-            "ctx_(c, k) raises VariableInaccessibleError for k starting with a double underscore, VariableUndefinedError for an unknown k, and ctx_(c) lists no double-underscore name"},
+            "ctx_(c, k) raises VariableInaccessibleError for k starting with a double underscore, VariableUndefinedError for an unknown k, and ctx_(c) lists exactly the names without that prefix - user variables named `_x`, `_`, `x__y`, `a_` included - each with its own value"},
     }
     assumptions = ["BOUNDED: nested context of depth 2; json_util.deepcopy fresh structural copy"]
     trusted = ["pyvc interpreter"]
@@ -348,9 +348,20 @@ class ContextHelpers(Unit):
                 ok = deq(base, sn) and deep_ids(base) == ids and not (deep_ids(res) & ids) and res is not base \
                     and deq({k: v for k, v in res.items() if not k.startswith("__")}, sn)
                 ctx.oblige("C19.ctxutil.copy", ok, None, {"function": fn.__name__})
-            context = {"__vars": {"a": Leaf("a"), "__state": Leaf("s"), "__current_task": Leaf("t")}}
+            # user variables whose names merely resemble the internal prefix stay visible
+            users = ("a", "_x", "_", "x__y", "a_")
+            vars_ = {k: Leaf(k) for k in users}
+            vars_.update({"__state": Leaf("s"), "__current_task": Leaf("t")})
+            context = {"__vars": vars_}
             r = e.call(fn_common.ctx_, [context], {})
-            ctx.oblige("C16.ctx_.hides", set(r) == {"a"}, None, {"call": "ctx()"})
+            ctx.oblige("C16.ctx_.hides", set(r) == set(users) and all(r[k] is vars_[k] for k in users if k in r), None, {"call": "ctx()"})
+            for k in users:
+                got = None
+                try:
+                    got = e.call(fn_common.ctx_, [context, k], {})
+                except Raised as rr:
+                    got = rr.cls
+                ctx.oblige("C16.ctx_.hides", got is vars_[k], None, {"call": "ctx(%r)" % k})
             for key, want in (("__state", exc.VariableInaccessibleError), ("__current_task", exc.VariableInaccessibleError),
                               ("nope", exc.VariableUndefinedError), ("__nope", exc.VariableUndefinedError)):
                 got = None
